@@ -31,6 +31,18 @@ func xmlName(r *rand.Rand) string {
 		s += "é"
 	}
 	if r.Intn(8) == 0 {
+		// non-ASCII letters whose UTF-8 bytes look like ASCII delimiters when masked (à = C3 A0, π = CF 80, 名 = E5 90 8D, …)
+		l := Pick(r, []string{"à", "À", "É", "Ê", "Í", "þ", "π", "Р", "р", "名", "ö", "日"})
+		switch r.Intn(3) {
+		case 0:
+			s = l + s
+		case 1:
+			s += l
+		default:
+			s = s[:1] + l + s[1:]
+		}
+	}
+	if r.Intn(8) == 0 {
 		s = Pick(r, []string{"ns", "x", "xlink"}) + ":" + s
 	}
 	return s
@@ -74,7 +86,14 @@ func XMLDoc(r *rand.Rand) (doc string, toks []XTok) {
 		if q == "'" {
 			other = "\""
 		}
-		val := xmlText(r, "<|&|?>|]]>|"+q)
+		forbid := "<|&|]]>|" + q
+		if pi {
+			forbid += "|?>" // a processing instruction ends at the first "?>"; in an element it is ordinary value text
+		}
+		val := xmlText(r, forbid)
+		if !pi && r.Intn(6) == 0 {
+			val += Pick(r, []string{"?>", "why?>", "/>", "a?>b", "?"})
+		}
 		if r.Intn(3) == 0 {
 			val += other
 		}
